@@ -360,3 +360,59 @@ func Harness_C02_Union() {
 	}
 	vs.Cover("C02/union-done")
 }
+
+//verif:harness prop=C02 maporder=both noreplay=1 bounds="(engine-only: Go's map iteration order cannot be forced natively; the engine explores the insertion order and its reverse) select g, count(*) from t group by g order by g [desc] over two shards: shard 0 answers 0..3 groups out of {a, b, c} in order, shard 1 answers 0..3 groups likewise, counts 1 and 2; the merged result must list every group once, with the counts added, in the requested order"
+func Harness_C02_GroupOrder() {
+	desc := vs.Choice("desc", 2) == 1
+	sql := "select g, count(*) from t group by g order by g"
+	if desc {
+		sql += " desc"
+	}
+	p := vhC02Plan(sql)
+	if p == nil {
+		vs.Cover("C02/group-order-rejected")
+		return
+	}
+	nf := p.GetColumnCount()
+	letters := []string{"a", "b", "c"}
+	if desc {
+		letters = []string{"c", "b", "a"}
+	}
+	total := map[string]int64{}
+	var rs []*mysql.Result
+	for s := 0; s < 2; s++ {
+		var vals [][]interface{}
+		for _, g := range letters { // each shard answers in the requested order
+			if vs.Choice("present", 2) == 0 {
+				continue
+			}
+			c := int64(1 + s) // concrete: the addition of counts is Harness_C02_GroupKeys' subject
+			total[g] += c
+			r := []interface{}{g, c}
+			for len(r) < nf {
+				r = append(r, g)
+			}
+			vals = append(vals, r)
+		}
+		rs = append(rs, vhC02Result(nf, vals))
+	}
+	got, err := MergeSelectResult(p, p.stmt, rs)
+	if err != nil {
+		vs.Cover("C02/group-order-merge-error")
+		return
+	}
+	var want []string
+	for _, g := range letters {
+		if _, ok := total[g]; ok {
+			want = append(want, g)
+		}
+	}
+	vs.Assert(len(got.Values) == len(want), "C02/every-group-once")
+	for i := 0; i < len(want) && i < len(got.Values); i++ {
+		g, ok := got.Values[i][0].(string)
+		vs.Assert(ok && g == want[i], "C02/groups-in-the-requested-order")
+		c, ok := got.Values[i][1].(int64)
+		vs.Assert(ok && c == total[want[i]], "C02/group-count-merged")
+	}
+	vs.Cover("C02/group-order-done")
+}
